@@ -624,8 +624,6 @@ def _aff(p):
 
 
 def check(ix, rep):
-    from sa.rules import round11 as _r11
-    rep.floor('offline evaluate() entry points that count gaps', _r11.check_offline_counter_restart(ix, rep), 1)
     mons = {m.kind: m for m in M.standard_monitors(ix)}
     on, off = mons['discrete-online'], mons['discrete-offline']
     comparison_shape(ix, rep, on.cls)
